@@ -186,7 +186,11 @@ impl EventQueue {
 
 // determine if a, with network delay sum, is before or at b: uses the same
 // ordering as the binary heap, from SimEvent::cmp()
-fn before(a: Option<&SimEvent>, b: Option<&SimEvent>, a_network_delay_sum: Duration) -> bool {
+pub(crate) fn before(
+    a: Option<&SimEvent>,
+    b: Option<&SimEvent>,
+    a_network_delay_sum: Duration,
+) -> bool {
     match (a, b) {
         (Some(a), Some(b)) => {
             let a_time = a.time + a_network_delay_sum;
